@@ -25,11 +25,12 @@ PID = "C13"
 INVS = ["ScenarioOK", "C13_Order", "C13_OwnFirst", "C13_Once", "C13_Replaced", "C13_WalkIsBehaviour"]
 
 
-def _mc(rep, max_objs):
-    env = dict(VT_DEV="", VT_FAMILY="c13", VT_MAXOBJS=max_objs, VT_MAXFILES=2, VT_MAXREFS=2, VT_MAXPOSTPONE=0)
+def _mc(rep, max_objs, full_tables, emit):
+    env = D.mc_env("c13", max_objs, 2, 2, 0, emit=emit, full_tables=full_tables)
     r = tlc.model_check("MC_LoaderProc", cfg="MC_LoaderProc_C13.cfg", env=env, timeout=3000)
     tlc.require_ok(r, "MC_LoaderProc_C13")
     rep.add_mc("MC_LoaderProc_C13", r, INVS)
+    return r.results("SCEN")
 
 
 def _tables(rng, scn, k):
@@ -148,22 +149,38 @@ def run(rep):
         "a log that differs there is judged by trace validation, which leaves that order free as the property does",
         "replacement values are non-empty strings; match-rule processors are not part of this check",
     ]
-    _mc(rep, 3 if quick else 4)
-    # (S->I)
-    r, shapes = D.emit_shapes(tlc, 4 if quick else 5)
-    rep.add_mc("MC_LoaderProc_Emit[shapes]", r, ["(scenario emission)"])
-    per_shape = 2 if quick else 4
-    if not quick and len(shapes) > 12000:
-        shapes = rng.sample(shapes, 12000)
-        rep.exhaustive = False
+    # (M); in the quick tier the same run hands out its scenario universe (shape x processor table)
+    if quick:
+        scns = _mc(rep, 3, 2, emit=True)
+        plan = [(s, [(s["procs"], s["repl"])]) for s in scns]
+        if len(plan) > 2400:
+            plan = rng.sample(plan, 2400)
+        rep.exhaustive = len(plan) == len(scns)
+        rep.bounds["scenarios"] = dict(enumerated=len(scns), replayed=len(plan), max_objs=3,
+                                       tables="all tables for <= 2 objects; for 3 objects every replacement subset "
+                                              "with all rules registered and every registration subset")
     else:
-        rep.exhaustive = True
-    rep.bounds["shapes"] = dict(count=len(shapes), max_objs=4 if quick else 5, tables_per_shape=per_shape)
+        _mc(rep, 4, 3, emit=False)
+        r, shapes = D.emit_shapes(tlc, 5)
+        rep.add_mc("MC_LoaderProc_Emit[shapes]", r, ["(scenario emission)"])
+        total = len(shapes)
+        if len(shapes) > 9000:
+            shapes = rng.sample(shapes, 9000)
+        rep.exhaustive = len(shapes) == total
+        plan = [(s, _tables(rng, s, 3)) for s in shapes]
+        rep.bounds["scenarios"] = dict(enumerated_shapes=total, replayed_shapes=len(shapes), max_objs=5,
+                                       tables_per_shape=3)
+    # bigger seeded-random forests for the same comparison
+    nrand = 300 if quick else 3000
+    for _ in range(nrand):
+        s = D.random_scenario(rng, max_objs=rng.randint(4, 9), nfiles=rng.choice([1, 1, 2]), max_postpone=1)
+        plan.append((s, _tables(rng, s, 2)[1:]))
+    rep.bounds["random_forests"] = dict(count=nrand, max_objs=9)
     work = tlc.scratch("vt-c13-")
     try:
         batch = []
-        for k, s in enumerate(shapes):
-            for j, (procs, repl) in enumerate(_tables(rng, s, per_shape)):
+        for k, (s, tables) in enumerate(plan):
+            for j, (procs, repl) in enumerate(tables):
                 case = D.render(s, rng)
                 case["procs"], case["repl"] = procs, repl
                 user = bool((k + j) % 2)
